@@ -499,6 +499,105 @@ func highPrecisionCase(t *mon.T) {
 	}
 }
 
+// giantCase: operands whose coefficient is longer than the whole exponent
+// range (100001..140000 digits), or whose exponents lie at opposite ends of
+// it, so that two operands of equal magnitude need aligning by more than
+// 100000 places - the distance at which the internal scaling helpers report an
+// error instead of a value.
+func giantCase(t *mon.T) {
+	r := t.Rng
+	D := r.Range(100001, 140000)
+	if r.Chance(1, 3) {
+		D = []int64{100001, 100002, 100003, 131072}[r.Intn(4)]
+	}
+	small := func(adj int64) dec.D {
+		c := big.NewInt(r.Range(1, 99999))
+		e := adj - dec.NumDigits(c) + 1
+		if e > gen.MaxExp {
+			e = gen.MaxExp
+		}
+		if e < gen.MinExp {
+			e = gen.MinExp
+		}
+		return dec.D{Form: dec.Finite, Neg: r.Bool(), C: c, E: e}
+	}
+	var x, y dec.D
+	layout := 1 + r.Intn(3)
+	switch layout {
+	case 1: // giant integer against a short coefficient with the largest exponent
+		cf, _ := new(big.Int).SetString(gen.Digits(r, D), 10)
+		x = dec.D{Form: dec.Finite, Neg: r.Bool(), C: cf, E: 0}
+		y = small(D - 1)
+	case 2: // giant coefficient at the smallest exponent
+		cf, _ := new(big.Int).SetString(gen.Digits(r, D), 10)
+		x = dec.D{Form: dec.Finite, Neg: r.Bool(), C: cf, E: gen.MinExp}
+		y = small(D - 1 + gen.MinExp + r.Range(-1, 1))
+	default: // short coefficients, exponents at opposite ends
+		x = small(gen.MaxExp - int64(r.Intn(3)))
+		y = small(gen.MinExp + 5 + int64(r.Intn(3)))
+		if r.Bool() {
+			y = dec.Zero(r.Bool(), gen.MinExp)
+		}
+	}
+	if r.Bool() {
+		y.Neg = x.Neg
+	}
+	c := hostileContext(r)
+	if c.P > 50 {
+		c.P = int64(1 + r.Intn(50))
+	}
+	ops := []string{"add", "sub", "mul", "quo", "quoint", "rem", "cmp", "round", "reduce", "quantize", "rtie", "rtiv", "ceil", "floor", "abs", "neg", "sqrt", "cbrt"}
+	run := func(name string, fn func()) {
+		// one loop iteration on such operands can take milliseconds: the budget is
+		// far above the few dozen iterations a legitimate call makes (Reduce: one
+		// per trailing zero, at most one per digit), and small enough that an
+		// endless loop is reported within a minute
+		budget := int64(20000)
+		if strings.Contains(name, "reduce") || strings.Contains(name, "Cmp/CmpTotal") {
+			budget += 2 * D
+		}
+		over, ticks, pan := budgeted(budget, fn)
+		t.Eval()
+		t.R.ChildMax("loop_ticks_per_call", float64(ticks))
+		if over != "" {
+			t.Fail("non-termination", map[string]interface{}{"entry": name, "layout": layout, "coefficient_digits": D, "x_exp": x.E, "y": y.String(), "why": fmt.Sprintf("loop budget exceeded at site %q after %d ticks", over, ticks)})
+		}
+		if pan != nil {
+			t.Fail("panic", map[string]interface{}{"entry": name, "layout": layout, "coefficient_digits": D, "x_exp": x.E, "y": y.String(), "panic": fmt.Sprint(pan)})
+		}
+	}
+	ax, ay := br.ToApd(x), br.ToApd(y)
+	run("Decimal.Cmp/CmpTotal/Reduce (giant)", func() {
+		_, _ = ax.Cmp(ay), ay.Cmp(ax)
+		_, _ = ax.CmpTotal(ay), ay.CmpTotal(ax)
+		_, _, _ = ax.Sign(), ax.NumDigits(), ax.IsZero()
+		var i, f apd.Decimal
+		ax.Modf(&i, &f)
+		var d apd.Decimal
+		d.Reduce(ax)
+		_, _ = ax.Int64()
+	})
+	for k := 0; k < 5; k++ {
+		op := ops[r.Intn(len(ops))]
+		a, b := x, y
+		if r.Bool() && isBinaryOp(op) {
+			a, b = y, x
+		}
+		var o Outcome
+		run("Context."+op+" (giant)", func() {
+			o, _, _ = CallAliased(op, br.Context(c, randomTraps(r)), a, b, r.Range(-5, 5), AliasDistinct, nil)
+		})
+		if o.Raw != nil {
+			if werr := br.WellFormed(o.Raw); werr != nil {
+				t.Fail("ill-formed-result", map[string]interface{}{"op": op, "layout": layout, "coefficient_digits": D, "why": werr.Error()})
+			}
+		}
+		t.Count("giant/" + op)
+	}
+	t.Count("giant-operands")
+	t.Nontrivial(fmt.Sprintf("giant|%d|%d|%d", layout, D, t.Index))
+}
+
 func pinnedC04(t *mon.T) {
 	run := func(name string, fn func()) {
 		over, _, pan := budgeted(4000000, fn)
@@ -525,6 +624,21 @@ func pinnedC04(t *mon.T) {
 		var d apd.Decimal
 		c.Ln(&d, apd.New(105, -2))
 	})
+	{
+		// fixed: Cbrt's range reduction spun forever on operands of more than 100000 digits
+		x := new(apd.Decimal)
+		x.Coeff.SetString("7"+strings.Repeat("3", 100010), 10)
+		over, _, pan := budgeted(20000, func() {
+			c := apd.Context{Precision: 4, MaxExponent: 100000, MinExponent: -100000}
+			var d apd.Decimal
+			c.Cbrt(&d, x)
+		})
+		t.Eval()
+		t.Count("pinned")
+		if over != "" || pan != nil {
+			t.Fail("panic-or-non-termination", map[string]interface{}{"pinned": "Cbrt(100011-digit integer) p=4", "why": fmt.Sprintf("overrun=%q panic=%v", over, pan)})
+		}
+	}
 	for _, s := range []string{".-5", "nansnan", "İnf", "1e+-5", "--1", "+", ".", "e5", "1e", "0x10", "1_0"} {
 		s := s
 		run("parse "+s, func() {
@@ -541,7 +655,7 @@ func runC04(r *mon.Run) {
 		"(Precision 0, package-limit exponent range, any trap set, unknown rounding names, aliased destination), the parsers on grammar " +
 		"sentences / single-byte mutations / fragment concatenations / random bytes, the formatters with random fmt verbs and flags, " +
 		"conversions, Compose/Decompose, Condition/Rounder helpers, ErrDecimal, BigInt method sequences (negative values of every size " +
-		"class); a separate stratum places exponents at the +/-100000 limits and another uses precisions from 150 to 10000 digits (around the 2^k and constant-table boundaries). Every call runs in a serial child process under recover() and " +
+		"class); a separate stratum places exponents at the +/-100000 limits and another uses precisions from 150 to 10000 digits (around the 2^k and constant-table boundaries), and a giant-operand stratum uses coefficients of 100001..140000 digits and exponents at opposite ends of the range (equal magnitudes that need aligning by more than 100000 places). Every call runs in a serial child process under recover() and " +
 		"a logical loop-iteration budget; a fatal runtime error is attributed through the journal and confirmed by re-running the case " +
 		"alone. Successful parses are checked for the structural invariant. distinct_nontrivial = distinct (entry point, case) executed."
 	r.Assumptions = []string{"'does not return' is decided as exceeding the loop-tick budget (2e7 ticks per call); a wall-clock watchdog firing without a tick overrun is inconclusive, not a violation",
@@ -550,15 +664,17 @@ func runC04(r *mon.Run) {
 	r.Isolated("totality", r.N(240000, 24000000), 16, 3000*time.Second, func(t *mon.T) { totalityCase(t, false) })
 	r.Isolated("extreme-exponents", r.N(2400, 120000), 16, 6000*time.Second, func(t *mon.T) { totalityCase(t, true) })
 	r.Isolated("high-precision", r.N(int64(len(highPrecisions))*10, int64(len(highPrecisions))*100), 16, 6000*time.Second, highPrecisionCase)
+	r.Isolated("giant-operands", r.N(64, 3200), 16, 6000*time.Second, giantCase)
 	if r.IsChild() {
 		return
 	}
+	r.Require("giant-operands", 60)
 	for _, op := range []string{"ln", "log10", "exp", "pow", "sqrt", "cbrt", "add", "mul", "quo", "round"} {
 		r.Require("high-precision/"+op, 20)
 	}
 	for _, ep := range entryPoints {
 		r.Require("entry/"+ep.name, 50)
 	}
-	r.Require("pinned", 14)
+	r.Require("pinned", 15)
 	_ = bytes.MinRead
 }
